@@ -64,7 +64,10 @@ def total(case):
             continue
         if not (np.all(np.isfinite(res)) and np.all(np.isfinite(err)) and np.all(err >= 0)):
             bad.append(dict(terms=e, got=res.tolist(), abserr=err.tolist()))
-    return dict(reproduced=bool(bad), tried=len(cands), failing=bad[:5])
+    from ndvc.concrete import dea3_quiet_cases
+    cnt, qbad = dea3_quiet_cases(dea3)
+    bad += qbad
+    return dict(reproduced=bool(bad), tried=len(cands) + cnt, failing=bad[:5])
 
 
 @reg('C13.frame')
